@@ -90,6 +90,35 @@ Theorem C01_generated_code_is_peg :
 Proof. exact generated_code_is_peg. Qed.
 Print Assumptions C01_generated_code_is_peg.
 
+(** ... and every execution does: the goto semantics is deterministic (Proofs/ExecDet.v), so whatever the entry's
+    function returns is that result *)
+Theorem C01_generated_code_every_execution :
+  forall g ptx buf penv, good_grammar g -> good_buf buf -> good_switches g ->
+  forall memo inline n r st0 rr,
+    deep_table_b g inline = true -> slot_ok g inline r -> reached (count_rules g) r = true ->
+    peg_parse g ptx buf penv (S n) r = Some rr ->
+    forall res, xcall buf penv (mk_opts true memo inline g) (gen_fn g ptx inline) r (reset st0) res ->
+      match rr with
+      | (Succ p f, _) => exists st', res = Ret true st' /\ pos st' = p /\ live st' = Syntax.flat f
+      | (Fail, evs) => exists st', res = Ret false st' /\ maxtok st' = first_furthest evs
+      end.
+Proof. exact generated_code_every_execution. Qed.
+Print Assumptions C01_generated_code_every_execution.
+
+(** the bridge for the other properties: what the entry's function of the generated file returns IS what the machine
+    returns (and is never a crash), so every theorem about [machine .. = Some (Ret b st')] - the tokens (C03), Execute's
+    trace (C04), the syntax tree (C05), memoisation (C06), the error token (C11), reuse after Reset (C12: [st0] is any
+    earlier state), no crash (C13) - is a theorem about the generated statements; C04, C05, C06, C11, C13 state theirs *)
+Theorem C01_generated_code_is_machine :
+  forall g ptx buf penv, good_grammar g -> good_buf buf -> good_switches g ->
+  forall memo inline n r st0 rr,
+    deep_table_b g inline = true -> slot_ok g inline r -> reached (count_rules g) r = true ->
+    peg_parse g ptx buf penv (S n) r = Some rr ->
+    forall res, xcall buf penv (mk_opts true memo inline g) (gen_fn g ptx inline) r (reset st0) res ->
+      machine g ptx buf penv memo inline (S n) r st0 = Some res /\ res <> Crash.
+Proof. exact generated_code_is_machine. Qed.
+Print Assumptions C01_generated_code_is_machine.
+
 (** non-vacuity: the side condition holds for the example grammar under both settings and for the grammar
     peg's own front end is generated from (-inline -switch), and the first rule of the example has a function of more than four statements *)
 Example C01_code_nonvacuous :
